@@ -8,6 +8,8 @@ R12.ss         sansScalingAndShear / removeScalingAndShear return the matrix lef
 R12.rs         computeRSMatrix = Scale(as|bs) * Rotation(ar|br) * Translation(at) per the flags; degenerate A or B throws
 R12.gs         extractAndRemoveScalingAndShear: diag(scl) * Shear(shr) * R == input rows, R orthonormal with det +1
                (Gram-Schmidt identity at a generic point, both determinant signs), 3-D and 2-D
+R12.zero       extractAndRemoveScalingAndShear (4x4 and 3x3): every value a row or shear is divided by is the value
+               tested by the zero-scale guard (checkForZeroScaleInRow inlined: |scl| < 1 ...)
 R12.shrt       extractSHRT: translation = last row; rotation angles = extractEulerXYZ of the orthonormalised matrix
 """
 import os
@@ -204,6 +206,36 @@ def main(rep, ws, tier):
                     rep.ob(oid, rule, HOLDS if (okt and okr) else VIOLATED, 'translation = row 3 of the input; angles = extractEulerXYZ of the matrix left by extractAndRemoveScalingAndShear' if (okt and okr) else 'translation from input row 3: %s; rotation through extractEulerXYZ(orthonormalised): %s' % (okt, okr), where)
             except (P.NotPoly, PC.Undecided, vg.Unsupported, OverflowError) as e:
                 rep.ob(oid, rule, UNDECIDED, repr(e)[:300], where)
+        # zero-scale guards: every value the rows / shears are divided by went through checkForZeroScaleInRow
+        for name, m in ti.meta.items():
+            oid = '%s<%s>#zero' % (name[2:], E)
+            S = Ri.get(name)
+            if S is None:
+                rep.ob(oid, 'R12.zero', UNDECIDED, Ri.err.get(name, '')); continue
+            try:
+                d = m['d']; ns = 3 if d == 4 else 2; nh = 3 if d == 4 else 1
+                outs_ = [S.out('a0', 0, 1, 'i8')] + [S.out('a1', i * sz, sz, lt) for i in range(d * d)] + [S.out('a2', i * sz, sz, lt) for i in range(ns)] + [S.out('a3', i * sz, sz, lt) for i in range(nh)]
+                dens = {}; guards = set(); seen_ = set(); st_ = list(outs_)
+                while st_:
+                    x = st_.pop()
+                    if x.id in seen_: continue
+                    seen_.add(x.id); st_.extend(x.args)
+                    if x.op == 'fdiv' and x.args[1].op != 'const':
+                        num = x.args[0]
+                        isabs = num.op == 'absi' or (num.op == 'call' and 'fabs' in str(num.attr))
+                        if not isabs: dens[x.args[1].id] = x.args[1]      # |x|/max inside lengthTiny is C08's business
+                    if x.op == 'fcmp' and x.attr == 'olt' and x.args[1].op == 'const' and T.const_value(x.args[1]) == 1 and (x.args[0].op == 'absi' or (x.args[0].op == 'call' and 'fabs' in str(x.args[0].attr))):
+                        guards.add(x.args[0].args[0].id)
+                unguarded = [v for k_, v in dens.items() if k_ not in guards]
+                need = 4 if d == 4 else 3
+                if len(dens) < need:
+                    rep.ob(oid, 'R12.zero', UNDECIDED, 'only %d divisor values recognised (expected maxVal and %d scale factors)' % (len(dens), need - 1), fn_where(S.fn))
+                else:
+                    rep.ob(oid, 'R12.zero', VIOLATED if unguarded else HOLDS,
+                           'a row / shear is divided by %s, a value that never passes the zero-scale test |scl| < 1 && |row_i| >= max*|scl| (a zero scale factor is decomposed into NaNs instead of being reported)' % T.show(unguarded[0], 3)[:160] if unguarded else
+                           '%d divisor values (maxVal, scale factors), each tested by checkForZeroScaleInRow' % len(dens), fn_where(S.fn))
+            except (vg.Unsupported, OverflowError) as e:
+                rep.ob(oid, 'R12.zero', UNDECIDED, repr(e)[:300], fn_where(S.fn))
         # Gram-Schmidt identity
         for name, m in ti.meta.items():
             if m['d'] == 4 and os.environ.get('VERIF_C12_GS44') != '1':
@@ -218,7 +250,7 @@ def main(rep, ws, tier):
                 rep.ob(oid, 'R12.gs', VIOLATED if e[0] else HOLDS, e[0] or e[1], where)
             except (P.NotPoly, PC.Undecided, vg.Unsupported, OverflowError) as e:
                 rep.ob(oid, 'R12.gs', UNDECIDED, repr(e)[:300], where)
-    rep.floor('factorisation obligations', len(rep.obs), 12 * len(types))
+    rep.floor('factorisation obligations', len(rep.obs), 14 * len(types))
     rep.assumptions += ['exact real arithmetic at a generic point; opaque callee out-parameters are free atoms', 'set* matrices as documented (C09)']
     rep.undecided_clauses += ['jacobiSVD, jacobiEigenSolver, min/maxEigenVector, procrustesRotationAndTranslation: convergence loops over run-time data - no static argument in reach establishes U*S*V^T = A',
                               'extractEulerXYZ / extractEulerZYX inverse-trigonometric correctness', 'near-singular inputs']
